@@ -76,7 +76,7 @@ CLAIMS = {
          "automated equation on C_n; clique_exact: for EVERY tau >= 1 the clique closed form equals the automated equation on K_tau (automated_clique + Q_eq_connCount); by C15 both closed forms "
          "are the exact bond-percolation expectation over any commutative ring. The harness additionally compares the real functions as polynomial identities for tau <= 7, n <= 12 and Q rows to n = 14.",
          TB + "lru_cache assumed transparent; the equations run on exact polynomial arguments."),
- "C17": ("message_is_expectation (every update is the exact expectation of its motif, from C15), neighbour_product_is_other_motifs (under a consistent cover whose motifs pairwise share at most one vertex), theoretical_formula, range (result and every message in [0,1] for every sweep count), zero_at_zero (iterations >= 1; kernel-checked that 0 sweeps gives a non-zero value), monotone (for EVERY iteration count, by induction over the individual in-place updates using Perc.exactE_antitone), fixed_point_stable, history_independent. PARTIAL: converges_full (the 25-sweep iterate is the fixed point) is analysis and is not proved; the harness compares 1-3 sweeps exactly and the default 25 sweeps in double precision to 1e-9.",
+ "C17": ("message_is_expectation (every update is the exact expectation of its motif, from C15), neighbour_product_is_other_motifs (under a consistent cover whose motifs pairwise share at most one vertex), theoretical_formula, range (result and every message in [0,1] for every sweep count), zero_at_zero (iterations >= 1; kernel-checked that 0 sweeps gives a non-zero value), monotone (for EVERY iteration count, by induction over the individual in-place updates using Perc.exactE_antitone), fixed_point_stable, history_independent. Over the reals (Properties/C17Limit.lean): sweep_continuous, limit_is_fixed_point / limit_table_fixed (IF the iteration from the uniform 0.5 start converges, its limit is a table fixed by the sweep, entry-wise and as a table), value_converges (the reported value converges to the value at that fixed point), cast_theoretical / rational_run_limit (the rational model is the real one), converges_at_zero. PARTIAL: that the iteration DOES converge within the default 25 sweeps (converges_full) is analysis with no general rate and is not proved; the harness compares 1-3 sweeps exactly and the default 25 sweeps in double precision to 1e-9.",
          TB + "labels are taken in parsed form; the real label parser is checked by the harness against the generating structure; Python floats are outside the model except for the bit-exact comparison of the 25-sweep run to 1e-9."),
  "C19": ("About the real-number functions the code computes: expo_nonneg/expo_hasSum_one, pois_nonneg/pois_hasSum_one, both truncation loops terminate in the documented parameter range (and the zeta loop provably does not for alpha <= 0), zeta_tail_bound (0 < zeta - C <= K*tol), powerLaw_close / powerLaw_sum (relative error K*tol), polylog_tail_bound, cutoff_close / cutoff_sum (relative error tol/(1-z)); zetaLoop_spec / polylogLoop_spec tie the executable rational loops of Model/Distributions.lean to these definitions. PARTIAL by nature: floating-point rounding and numpy.exp are outside the model and are covered only numerically (60-digit reference, relative 1e-9 plus the proved bound).",
          TB + "numerical comparison with tolerances is used for this property only; for integer alpha the truncated normaliser and its stopping index are compared with the executable Lean model."),
